@@ -448,7 +448,7 @@ func runC03(r *Report, rng *rand.Rand, thorough bool) {
 				}
 				id := fmt.Sprintf("%s/client%d", name, len(scenarios))
 				scenarios = append(scenarios, map[string]any{"id": id, "pkg": name, "opts": map[string]any{"base_url": "", "short_circuit": -1, "strict_short_circuit": -1},
-					"client": map[string]any{"fn": "New" + opName(rt.op) + "Request", "args": args, "then_serve": true}})
+					"client": map[string]any{"fn": "New" + opName(rt.op) + "Request", "args": args, "then_serve": true, "via_method": len(scenarios)%2 == 1}})
 				cmetas[id] = cmeta{fw, rt, vals}
 			}
 			for _, base := range [][]string{nil, {"api", "v1"}} {
